@@ -99,7 +99,7 @@ func runC02(c *an.Ctx) {
 	whoMayWrite(c, "R2", pkgWAF, "Transaction", "interruption", []storeRule{
 		{fn: "internal/corazawaf.(*Transaction).Interrupt", why: "stored under RuleEngine == On", check: func(c *an.Ctx, fs an.FieldStore) (bool, string) {
 			f := an.FactsAt(fs.Store)
-			if !f.HasSuffix(".RuleEngine", "==", on) {
+			if !txEngine(f, "==", on) {
 				return false, "the store of tx.interruption is not dominated by RuleEngine == On: DetectionOnly/Off transactions could be interrupted"
 			}
 			if fg := foreignGuards(f, ".RuleEngine"); len(fg) > 0 {
@@ -112,7 +112,7 @@ func runC02(c *an.Ctx) {
 	whoMayWrite(c, "R2", pkgWAF, "Transaction", "detectionOnlyInterruption", []storeRule{
 		{fn: "internal/corazawaf.(*Transaction).Interrupt", why: "remembered under RuleEngine == DetectionOnly, first wins", check: func(c *an.Ctx, fs an.FieldStore) (bool, string) {
 			f := an.FactsAt(fs.Store)
-			if !f.HasSuffix(".RuleEngine", "==", detOnly) {
+			if !txEngine(f, "==", detOnly) {
 				return false, "store not dominated by RuleEngine == DetectionOnly"
 			}
 			if !f.HasSuffix(".detectionOnlyInterruption", "==", "nil") {
@@ -134,6 +134,9 @@ func runC02(c *an.Ctx) {
 			}
 		}
 	}
+
+	// ... and state set from parsed text (ctl:ruleEngine and friends) is only set from successfully parsed values.
+	c02CheckedStores(c, "R2", "internal/actions", "internal/corazawaf")
 
 	// ---- R3: stop after interruption inside Eval.
 	ruleEval := c.Fn("R3", "internal/corazawaf.(*Rule).Evaluate")
@@ -206,7 +209,7 @@ func runC02(c *an.Ctx) {
 			}
 			facts := an.FactsAt(ret)
 			if cst, isC := v.(*ssa.Const); isC && cst.Value == nil {
-				if facts.HasSuffix(".RuleEngine", "==", off) {
+				if txEngine(facts, "==", off) {
 					c.Ok("R8", key, ret.Pos(), "returns nil only with the engine Off", facts.Strings()...)
 					return
 				}
@@ -245,7 +248,7 @@ func boundStr(v int64) string {
 
 func findAtom(f an.Facts, lsuffix, op, r string) *an.Atom {
 	for i := range f {
-		if strings.HasSuffix(f[i].L, lsuffix) && f[i].Op == op && f[i].R == r {
+		if strings.HasSuffix(f[i].L, lsuffix) && f[i].Op == op && f[i].R == r && !(lsuffix == ".RuleEngine" && strings.Contains(f[i].L, ".WAF.")) {
 			return &f[i]
 		}
 	}
@@ -655,4 +658,141 @@ func c02OneDisruptive(c *an.Ctx) {
 	})
 	c.Check(guarded >= 1, "R7", "mergeActions: block is replaced by the default disruptive action", mf.Pos(), "the rule's own disruptive action is kept only when it is not block", "no append guarded by Atype==Disruptive && Key != \"block\" found")
 	c.MinCount("R7", "appends in mergeActions", nAppend, 3)
+}
+
+// c02CheckedStores: a value obtained together with an error is stored into transaction (or WAF) state only
+// where the error is known to be nil.  The shape `v, err := parse(x); if err != nil { log }; tx.F = v`
+// (the error branch falls through) stores the callee's failure value, e.g. an engine mode that is none
+// of On/DetectionOnly/Off.
+func c02CheckedStores(c *an.Ctx, rule string, pkgs ...string) {
+	n := 0
+	seen := map[string]int{}
+	for _, fn := range c.P.ModFuncs {
+		rp := relPkg(fn)
+		in := false
+		for _, p := range pkgs {
+			if rp == p {
+				in = true
+			}
+		}
+		if !in {
+			continue
+		}
+		an.Instrs(fn, func(ins ssa.Instruction) {
+			call, ok := ins.(*ssa.Call)
+			if !ok {
+				return
+			}
+			sig := call.Call.Signature()
+			ei := an.ErrorIndex(sig)
+			if ei < 1 {
+				return
+			}
+			var errV ssa.Value
+			vals := map[ssa.Value]bool{}
+			for _, r := range *call.Referrers() {
+				if ex, ok := r.(*ssa.Extract); ok {
+					if ex.Index == ei {
+						errV = ex
+					} else {
+						vals[ex] = true
+					}
+				}
+			}
+			if errV == nil || len(vals) == 0 {
+				return
+			}
+			// is the error tested at all?
+			tested := false
+			for _, r := range *errV.Referrers() {
+				if b, ok := r.(*ssa.BinOp); ok && (b.Op == token.NEQ || b.Op == token.EQL) {
+					tested = true
+				}
+			}
+			if !tested {
+				return
+			}
+			errE := an.Expr(errV)
+			for v := range vals {
+				for _, r := range *v.Referrers() {
+					st, ok := r.(*ssa.Store)
+					if !ok || st.Val != v {
+						continue
+					}
+					fv := an.FieldVar(st.Addr)
+					if fv == nil {
+						continue
+					}
+					n++
+					c.FuncsAnalysed[fn] = true
+					k := fmt.Sprintf("%s stored into %s only when it parsed, in %s", an.CalleeName(call), fv.Name(), an.RelName(fn))
+					seen[k]++
+					key := k
+					if seen[k] > 1 {
+						key += fmt.Sprintf("#%d", seen[k])
+					}
+					if an.FactsAt(st).Has(errE, "==", "nil") {
+						c.Ok(rule, key, st.Pos(), "store dominated by err == nil")
+					} else if why, ok := c02CheckedStoreAllow[k]; ok {
+						c.Note(rule, key, st.Pos(), "not decided mechanically; manual argument: "+why)
+					} else if errBranchLeaves(fn, errV) {
+						c.Ok(rule, key, st.Pos(), "stored before the test, but the err != nil branch leaves the function without rejoining")
+					} else {
+						c.Bad(rule, key, st.Pos(), "the result of "+an.CalleeName(call)+" is stored into "+fv.Name()+" although the error it was returned with may be non-nil (the error branch falls through): the field receives the callee's failure value")
+					}
+				}
+			}
+		})
+	}
+	c.MinCount(rule, "stores of error-checked results into fields", n, 3)
+}
+
+// errBranchLeaves: every branch taken when errV != nil ends the function without rejoining the success path.
+func errBranchLeaves(fn *ssa.Function, errV ssa.Value) bool {
+	errE := an.Expr(errV)
+	found := false
+	for _, b := range fn.Blocks {
+		ifi, ok := b.Instrs[len(b.Instrs)-1].(*ssa.If)
+		if !ok {
+			continue
+		}
+		for si := 0; si < 2; si++ {
+			isErr := false
+			for _, a := range an.CondAtoms(ifi.Cond, si == 0) {
+				if a.L == errE && a.Op == "!=" && a.R == "nil" {
+					isErr = true
+				}
+			}
+			if !isErr {
+				continue
+			}
+			found = true
+			reach := func(start *ssa.BasicBlock) map[*ssa.BasicBlock]bool {
+				seen := map[*ssa.BasicBlock]bool{}
+				var walk func(x *ssa.BasicBlock)
+				walk = func(x *ssa.BasicBlock) {
+					if seen[x] {
+						return
+					}
+					seen[x] = true
+					for _, s := range x.Succs {
+						walk(s)
+					}
+				}
+				walk(start)
+				return seen
+			}
+			r1, r2 := reach(b.Succs[si]), reach(b.Succs[1-si])
+			for x := range r1 {
+				if r2[x] {
+					return false
+				}
+			}
+		}
+	}
+	return found
+}
+
+var c02CheckedStoreAllow = map[string]string{
+	"auditlog.GetWriter stored into auditLogWriter only when it parsed, in internal/corazawaf.NewWAF": "the argument is the constant \"serial\", a writer registered by the auditlog package's own init; the lookup cannot fail unless the registry is tampered with, and the error is logged",
 }
